@@ -46,6 +46,10 @@ GUIDELINE = {
                    "a_PD_RAM": 0.30, "b_PD_RAM": 1.00, "d_RAJ": -0.61, "a_PZ_RAJ": 101.7, "b_PZ_RAJ": 0.26,
                    "a_PD_RAJ": 5.18e-7, "b_PD_RAJ": 2.04},
 }
+# f_2.5% of the material curves (tables 2.10 / 2.33) - used by the corpus literals only
+F25 = {"Steel": {"RAM": 0.71, "RAJ": 0.39}, "SteelCast": {"RAM": 0.51, "RAJ": 0.40}, "Al_wrought": {"RAM": 0.61, "RAJ": 0.36}}
+K_EARLY = "early-failure-zero-repetitions"
+K_BAND = "praj-updated-endurance-band"
 BETA_TABLE = [(1e-7, 5.20), (1e-6, 4.75), (1e-5, 4.27), (7.2e-5, 3.8), (1e-3, 3.09), (2.3e-1, 0.739), (0.5, 0.0)]
 
 HEX16 = re.compile(r"^[0-9a-f]{16}$")
@@ -109,6 +113,59 @@ def run_life(case):
             "early": idx < len(case["rows"])}
 
 
+def multi_subcase(case, k):
+    """The one-point table of point k of a multi-point case (what the point is when it is assessed alone)."""
+    pt = case["points"][k]
+    return {"kind": "life", "exact": bool(case.get("exact")), "d1": case["d1"], "d2": case["d2"], "PZ": pt["PZ"], "PD": pt["PD"],
+            "rows": [[pt["P"][h], bool(c), int(r)] for h, (c, r) in enumerate(case["pattern"])]}
+
+
+def run_life_multi(case):
+    """The real DamageCalculatorPRAM on a table with several assessment points, in the layout the recorder delivers
+    (MultiIndex.from_product([range(n_hystereses), range(n_points)])); per-point results."""
+    _dp, dc, _pc, _const = _imports()
+    pts, pat = case["points"], case["pattern"]
+    npts, nh = len(pts), len(pat)
+    mi = pd.MultiIndex.from_product([range(nh), range(npts)], names=["hysteresis_index", "assessment_point_index"])
+    df = pd.DataFrame({
+        "P_RAM": [float(pts[k]["P"][h]) for h in range(nh) for k in range(npts)],
+        "is_closed_hysteresis": [bool(pat[h][0]) for h in range(nh) for _k in range(npts)],
+        "run_index": [int(pat[h][1]) for h in range(nh) for _k in range(npts)],
+        "S_min": [0.0] * (nh * npts),
+    }, index=mi)
+    if case["vector"]:
+        w = pd.Series({"P_RAM_Z": pd.Series([float(pt["PZ"]) for pt in pts]), "P_RAM_D": pd.Series([float(pt["PD"]) for pt in pts]),
+                       "d_1": case["d1"], "d_2": case["d2"]}).woehler_P_RAM
+    else:
+        w = pd.Series({"P_RAM_Z": pts[0]["PZ"], "P_RAM_D": pts[0]["PD"], "d_1": case["d1"], "d_2": case["d2"]}).woehler_P_RAM
+    with warnings.catch_warnings():
+        warnings.simplefilter("ignore")
+        with np.errstate(all="ignore"):
+            calc = dc.DamageCalculatorPRAM(df, w)
+            nseq = np.atleast_1d(np.asarray(calc.lifetime_n_times_load_sequence, dtype=float))
+            ncyc = np.atleast_1d(np.asarray(calc.lifetime_n_cycles, dtype=float))
+            x = np.atleast_1d(np.asarray(calc._x, dtype=float).squeeze())
+            idx = np.atleast_1d(np.asarray(calc._n_cycles_until_damage).squeeze())
+            inf = np.atleast_1d(np.asarray(calc.is_life_infinite))
+            col = calc.collective
+    for name, a in (("lifetime_n_times_load_sequence", nseq), ("lifetime_n_cycles", ncyc), ("_x", x),
+                    ("_n_cycles_until_damage", idx), ("is_life_infinite", inf)):
+        if len(a) != npts:
+            raise ValueError(f"{name} has {len(a)} entries for {npts} assessment points")
+    out = []
+    for k in range(npts):
+        sub = col.xs(k, level="assessment_point_index")
+        out.append({"nseq": float(nseq[k]), "ncyc": float(ncyc[k]), "x": float(x[k]), "idx": int(idx[k]), "infinite": bool(inf[k]),
+                    "D": [float(v) for v in sub["D"].values], "cum": [float(v) for v in sub["cumulative_damage"].values],
+                    "early": int(idx[k]) < nh})
+    return out
+
+
+def life_line(r):
+    return (f"{1 if r['early'] else 0} {r['idx']} {f2h(r['x'])} {f2h(r['nseq'])} {f2h(r['ncyc'])} "
+            f"{1 if r['infinite'] else 0} | " + " ".join(f2h(d) for d in r["D"]))
+
+
 def near_tie(cums, exact):
     """A prefix sum closer to one than summation-order rounding can resolve (never for the exact family)."""
     if exact:
@@ -159,12 +216,17 @@ def gen_praj_curve(rng):
     Ps = around(PD) + around(PD0) + around(PZ) + [0.0, PD / 2, PZ * 2]
     Ps += [logu(rng, PD * 0.3, PZ * 5) for _ in range(6)]
     Ns = around(ND) + around(1.0) + [0.25, ND * 10, "inf"] + [logu(rng, 0.01, min(ND * 3, 1e300)) for _ in range(6)]
+    if PD < PD0:        # the band between the lowered and the initial endurance value, on both axes
+        NDf = (PD / PZ) ** (1 / d)
+        Ps += [math.sqrt(PD * PD0), PD0 * (1 - 1e-3), PD * (1 + 1e-3), rng.uniform(PD, PD0)]
+        Ns += [math.sqrt(ND * NDf), ND * (1 + 1e-3), NDf * (1 - 1e-3), NDf, NDf * 2, rng.uniform(ND, NDf)]
     return {"kind": "praj_curve", "d": d, "PZ": PZ, "PD0": PD0, "PD": PD, "Ps": Ps, "Ns": Ns}
 
 
 def gen_pram_row(rng):
     g = rng.choice(GROUPS)
-    Rm = rng.choice([rng.uniform(150, 1600), 600.0, 285.714285714, 1000.0 / 0.35 * 0.1])   # incl. M_sigma ≈ 0
+    # incl. M_sigma ≈ 0 and (steel below R_m = 285.7) clearly negative M_sigma
+    Rm = rng.choice([rng.uniform(150, 1600), 600.0, 285.714285714, 1000.0 / 0.35 * 0.1, rng.uniform(100, 280)])
     E = rng.choice([GUIDELINE[g]["E"], rng.uniform(5e4, 2.5e5)])
     rows = []
     for _ in range(rng.randint(1, 8)):
@@ -188,7 +250,7 @@ def gen_pram_row(rng):
 
 
 def gen_life(rng):
-    mode = rng.choice(["never", "never", "pass1", "pass2", "zero", "big", "exact", "exact"])
+    mode = rng.choice(["never", "never", "pass1", "pass2", "pass2b", "zero", "big", "exact", "exact"])
     if mode == "exact":
         # d_1 = -1, P = P_Z * 1000 / 2^k  =>  N = 2^k exactly, damages dyadic, all sums exact (ties at one possible)
         PZ = 2.0 ** rng.randint(0, 8)
@@ -208,6 +270,11 @@ def gen_life(rng):
         t1, t2 = rng.uniform(1.05, 4), logu(rng, 1e-3, 2)
     elif mode == "pass2":
         t1, t2 = rng.uniform(0.0, 0.9), rng.uniform(1.05, 3)
+    elif mode == "pass2b":      # both passes below one, together above: the reported lifetime jumps here
+        t1 = rng.uniform(0.3, 0.95)
+        t2 = rng.uniform(1.0 - t1, 1.0) + 0.02
+        if rng.random() < 0.3:
+            n1, n2 = rng.choice([5, 7]), rng.choice([1, 2, 3])     # first pass with more hystereses than the second
     elif mode == "big":
         t1, t2 = logu(rng, 1e-9, 1e-3), logu(rng, 1e-9, 1e-4)
     else:
@@ -239,6 +306,90 @@ def gen_life(rng):
     return dict(c, kind="life", exact=False, rows=rows)
 
 
+def _targets(rng, mode):
+    if mode == "never":
+        return logu(rng, 1e-5, 0.4), logu(rng, 1e-5, 0.5)
+    if mode == "pass1":
+        return rng.uniform(1.05, 4), logu(rng, 1e-3, 2)
+    if mode == "pass2":
+        return rng.uniform(0.0, 0.9), rng.uniform(1.05, 3)
+    if mode == "big":
+        return logu(rng, 1e-9, 1e-3), logu(rng, 1e-9, 1e-4)
+    return logu(rng, 1e-4, 0.3), logu(rng, 1e-4, 0.3)
+
+
+def gen_life_multi(rng):
+    """2-3 assessment points in one table (same hysteresis structure, as the recorder delivers it), each point with its own
+    status (never / early in pass 1 / early in pass 2 / no damage / infinite life) and - `vector` - its own curve."""
+    npts = rng.choice([2, 2, 3])
+    exact = rng.random() < 0.4
+    vector = rng.random() < 0.6
+    n1, n2 = rng.randint(0, 4), rng.randint(1, 4)
+    pat = [[rng.random() < 0.6, 1] for _ in range(n1)] + [[rng.random() < 0.6, 2] for _ in range(n2)]
+    if exact:
+        d1, d2 = -1.0, -rng.uniform(0.1, 0.6)
+    else:
+        c0 = gen_pram_params(rng)
+        d1, d2 = c0["d1"], c0["d2"]
+    points = []
+    for k in range(npts):
+        if k > 0 and not vector:
+            PZ, PD = points[0]["PZ"], points[0]["PD"]
+        elif exact:
+            PZ = 2.0 ** rng.randint(0, 8)
+            PD = PZ * 0.5
+        else:
+            PZ = logu(rng, 20, 5000)
+            PD = PZ * rng.uniform(0.02, 0.98)
+        # (the exact family stays on the d_1 branch: no "inf" point there, its rows would need the d_2 power)
+        mode = rng.choice(["never", "pass1", "pass2", "zero", "big"] + ([] if exact else ["inf", "inf"]))
+        if exact:
+            lo, hi = {"never": (3, 9), "pass1": (0, 3), "pass2": (0, 4), "big": (6, 9)}.get(mode, (0, 8))
+            P = []
+            for closed, run in pat:
+                kk = rng.randint(lo, hi) if not (mode == "pass1" and run == 2) and not (mode == "pass2" and run == 1) else rng.randint(3, 8)
+                P.append(PZ * 1000.0 / 2 ** kk)
+        else:
+            t1, t2 = _targets(rng, mode)
+            P = [0.0] * len(pat)
+            for run, t in ((1, t1), (2, t2)):
+                idxs = [i for i, q in enumerate(pat) if q[1] == run]
+                w = [rng.random() + 0.05 for _ in idxs]
+                for i, wi in zip(idxs, w):
+                    D = t * wi / sum(w)
+                    N = (1.0 if pat[i][0] else 0.5) / D
+                    P[i] = PZ * (N / 1e3) ** (d1 if N < 1e3 else d2)
+        if mode == "zero":
+            P = [0.0 if (rng.random() < 0.5 or run == 2) else v for v, (_c, run) in zip(P, pat)]
+        if mode == "inf":       # every hysteresis of the second pass at or below the endurance value
+            P = [PD * rng.choice([1.0, 0.5, 0.999999]) if run == 2 else v for v, (_c, run) in zip(P, pat)]
+        points.append({"PZ": PZ, "PD": PD, "P": P, "mode": mode})
+    return {"kind": "life_multi", "exact": exact, "vector": vector, "d1": d1, "d2": d2, "pattern": pat, "points": points}
+
+
+def gen_gamma_mesh(rng):
+    """normal-distribution gamma_L on a mesh: MultiIndex (load_step, node_id) Series / one-column / two-column DataFrame,
+    node ids not necessarily 0..n-1 nor ascending, with and without max_load_independently_for_nodes."""
+    PA = rng.choice([p for p, _ in BETA_TABLE] + [0.3])
+    PL = rng.choice([2.5, 50.0, 50])
+    n = rng.randint(1, 4)
+    steps = rng.randint(1, 5)
+    ids = rng.choice([list(range(n)), rng.sample(range(1, 50), n), list(range(n))[::-1], [i + 1 for i in range(n)]])
+    cols = []
+    for _k in range(n):
+        scale = rng.choice([1.0, 0.1, 3.0, 1e-3])
+        col = [rng.choice([rng.uniform(-500, 500), float(rng.randint(-300, 300))]) * scale for _ in range(steps)]
+        if all(v == 0 for v in col):
+            col[0] = 1.0
+        if rng.random() < 0.4:          # the extreme load is a negative one
+            j = rng.randrange(steps)
+            col[j] = -abs(max(col, key=abs)) * rng.choice([1.0, 1.5, 4.0])
+        cols.append(col)
+    return {"kind": "gamma", "which": "normal", "PA": PA, "PL": PL, "s": rng.choice([logu(rng, 1e-3, 50), 0.0, 10.0]),
+            "loads": [cols[k][t] for t in range(steps) for k in range(n)],
+            "mesh": {"ids": ids, "n": n, "indep": rng.random() < 0.6, "frame": rng.choice([0, 0, 1, 2])}}
+
+
 def gen_beta(rng):
     m = rng.random()
     if m < 0.5:
@@ -247,8 +398,10 @@ def gen_beta(rng):
         PA = rng.choice([p for p, _ in BETA_TABLE] + [2.5e-2, 0.5, 0.4999999, 1e-9])
     elif m < 0.85:
         PA = logu(rng, 1e-100, 1e-9)
-    else:
+    elif m < 0.93:
         PA = rng.uniform(0.01, 0.5)
+    else:
+        PA = rng.uniform(0.47, 0.5)      # beta close to 0: the root search from x0 = -0.6 is fragile here
     return {"kind": "beta", "PA": PA}
 
 
@@ -275,33 +428,53 @@ def gen_gamma(rng):
 # ------------------------------------------------------------------ the property
 class C09(Prop):
     ID = "C09"
+    PARALLEL = 8          # impl_lines / oracle are sharded over forked processes by core.pmap
     SOURCES = SOURCES
     LEAN_MODULES = ["Proofs.C09", "Proofs.BridgeC09"]
     THEOREMS = [f"PylifeVerif.C09.{t}" for t in [
         "pram_curve_inverse", "pram_branch_consistency", "pram_continuous", "pram_strictAnti_finite",
         "pram_infinite_below_endurance",
-        "praj_curve_inverse", "praj_branch_consistency", "praj_continuous", "praj_strictAnti_finite",
+        "praj_curve_inverse_partial", "praj_curve_inverse_fresh", "praj_updated_band", "praj_updated_band_refuted",
+        "praj_branch_consistency", "praj_continuous", "praj_strictAnti_finite",
         "praj_infinite_below_endurance",
         "pRAM_formula", "constants_eq_guideline", "pRAM_group_formula",
-        "rowD_nonneg", "early_failure_index", "lifetime_eq_accumulation", "lifetime_eq_accumulation_rows",
-        "isLifeInfinite_iff",
-        "getBeta_table", "gammaL_formulas", "beta_is_neg_quantile_partial"]] + [
+        "rowD_nonneg", "early_failure_index", "lifetime_eq_accumulation_partial", "lifetime_early_failure",
+        "lifetime_vs_literal_passes", "lifetime_early_pass2_refuted", "lifetime_cycles_convention",
+        "lifetime_eq_accumulation_rows", "isLifeInfinite_iff", "zero_second_pass_damage_is_infinite",
+        "damagePRAMBatch_eq_single", "pointRows_length",
+        "getBeta_table", "gammaL_formulas", "maxAbs_spec", "maxAbsMesh_spec", "gammaL_normal_of_loads",
+        "beta_is_neg_quantile_partial"]] + [
         f"PylifeVerif.Bridge.{t}" for t in [      # generated (translated) definitions = hand model
         "pram_fatigue_strength_limit_eq", "pram_fatigue_life_limit_eq", "pram_calc_N_eq", "pram_calc_P_RAM_eq",
         "praj_limits_eq", "praj_calc_N_eq", "praj_calc_N_explicit_eq", "praj_calc_P_RAJ_eq",
         "beta_table_eq", "get_beta_eq", "gamma_L_normal_eq", "gamma_L_lognormal_eq", "gamma_L_blanket_eq",
-        "constants_eq", "constants_keys_complete"]]
+        "constants_eq_c09"]]
     PARTIAL = {
+        "PylifeVerif.C09.praj_curve_inverse_partial":
+            "P(N(P)) = P is proved for P above BOTH the current and the initial endurance value; missing = the band "
+            "(P_RAJ_D, P_RAJ_D_0] of a curve lowered by update_P_RAJ_D, where the statement is false for the code "
+            "(praj_updated_band, praj_updated_band_refuted; open finding praj-updated-endurance-band); without an update the full "
+            "statement is praj_curve_inverse_fresh",
+        "PylifeVerif.C09.lifetime_eq_accumulation_partial":
+            "lifetime = literal accumulation is proved for tables whose damage sum stays below one within the two recorded passes "
+            "(D1 + D2 < 1) and D2 > 0; missing = D1 < 1 <= D1 + D2, where the code reports 0 passes instead of 1 + (1 - D1)/D2 "
+            "(lifetime_vs_literal_passes, lifetime_early_pass2_refuted; open finding early-failure-zero-repetitions); what the code "
+            "reports there is lifetime_early_failure; D2 = 0 is zero_second_pass_damage_is_infinite",
         "PylifeVerif.C09.beta_is_neg_quantile_partial":
-            "proved for an abstract strictly increasing (and symmetric) Phi: the residual |Phi(x) - P_A| vanishes exactly at the "
-            "unique solution of Phi(x) = P_A and beta = -x; NOT proved: that scipy.optimize.root (hybrid Powell from x0 = -0.6 on "
-            "this non-smooth residual) returns that root, and that scipy's norm.cdf is the standard normal distribution function - "
-            "measured per run: compute_beta vs an independent quantile (series / continued fraction + bisection in the driver) and "
-            "vs math.erfc in the oracle, P_A in [1e-100, 0.5]",
+            "proved for an abstract strictly increasing (and symmetric) Phi: the solution x of Phi(x) = P_A is unique (equivalently the "
+            "residual |Phi(x) - P_A| vanishes exactly there) and beta = -x, Phi(beta) = 1 - P_A, beta >= 0 for P_A <= 1/2; NOT proved: "
+            "that the number the code obtains for x IS that solution for the standard normal Phi (REPAIRED code, "
+            "tools/fixes/C09-compute-beta-quantile.diff: scipy.stats.norm.ppf; code before the repair: scipy.optimize.root, hybrid Powell "
+            "from x0 = -0.6 on the non-smooth residual, which does NOT converge for every P_A in (0, 0.5] - finding class "
+            "beta-root-search-fails, witness P_A = 0.4915868354632816) - measured per run: compute_beta vs an independent quantile "
+            "(series / continued fraction + bisection in the driver) and vs math.erfc in the oracle, P_A in [1e-100, 0.5]",
     }
     RULE = ("case = one of: P_RAM curve parameters + parameter / cycle values (incl. exactly P_Z, P_D, 1e3, N_D and their neighbours); "
             "P_RAJ curve likewise (with lowered P_RAJ_D); material group + R_m + rows (S_a, S_m, eps_a); hysteresis table "
-            "(P_RAM, closed?, run) + curve; P_A; gamma_L inputs; constants of a group.  Correspondence: model (Float) vs real code, "
+            "(P_RAM, closed?, run) + curve, also 2-3 assessment points in one table (own status and own curve per point, layout of "
+            "the recorder); P_A; gamma_L inputs incl. meshes (MultiIndex Series / DataFrames, arbitrary node ids, per-node or global "
+            "L_max); constants of a group; literals published in the repo's own tests (guideline example 2.7.1, gamma_L, beta, "
+            "material curve values).  Correspondence: model (Float) vs real code, "
             "bit-exact for constants, P_RAM rows, table look-ups and the exact (dyadic) damage tables, relative 1e-11 where "
             "pow/log are involved.  Oracle: the property's relations on the real code (round trips, monotonicity, limits at the "
             "knees, sqrt formula with guideline constants, literal damage accumulation, erfc residual of beta, guideline gamma_L "
@@ -310,14 +483,39 @@ class C09(Prop):
         "C09: theorems are over the reals (Real.rpow, Real.sqrt); IEEE rounding of np.power / division is not modelled, the "
         "correspondence measures agreement of the same formulas at Float with relative tolerance 1e-11",
         "C09: admissible curve = what _validate accepts (P_Z > P_D, negative slopes) plus P_D > 0, which the code does not test",
-        "C09: one assessment point per table (the multi-point groupby glue belongs to C10/C13); run-1 rows precede run-2 rows; tables "
-        "without a run-2 row are rejected by the code (IndexError) and are not generated",
+        "C09: multi-point tables are generated in the layout the recorder documents and delivers (MultiIndex.from_product("
+        "[range(n_hystereses), range(n_points)]), 'both counting from 0 upwards', same closed/run pattern for all points - the HCM "
+        "decisions are taken on the first node); other assessment_point_index labels are outside the admissible tables (with a "
+        "per-point curve the code then mis-aligns is_life_infinite or raises - C10's node-id finding); run-1 rows precede run-2 "
+        "rows; tables without a run-2 row are rejected by the code (IndexError) and are not generated",
+        "C09 FORMALISATION CHOICE (number of cycles): the property text's 'number of cycles' is read as eq. (2.6-91) of the guideline, "
+        "(1 + x) passes times the number n2 = H0 of hystereses of the repeated pass - NOT the count n1 + x*n2 of hystereses literally "
+        "accumulated; the two differ by the constant n2 - n1 (theorem lifetime_cycles_convention).  The choice is pinned by an "
+        "external literal: guideline example 2.7.1 (tests/strength/test_damage_calculator.py: 14618 cycles, 3655 passes, n1 = 3, "
+        "n2 = 4; n1 + x*n2 would be 14617) - corpus/C09/literal_example_271_life.json.  In the early-failure case the code reports the "
+        "hysteresis count (index of the failing hysteresis in the recorded table); the oracle demands exactly that count.  The two "
+        "conventions do not fit together when n1 != n2 (e.g. n1 = 5, n2 = 3: 7 cycles just above, 6 just below D1 + D2 = 1) - "
+        "reported to C10 (monotonicity), not a C09 clause",
+        "C09 (number of passes, early failure): for D1 < 1 <= D1 + D2 the literal accumulation of the property text gives "
+        "1 + (1 - D1)/D2 passes, the code 0: open finding early-failure-zero-repetitions.  For D1 >= 1 (failure within the first "
+        "pass) the property text is SILENT on which fraction of a pass is meant; the code's 0 (no complete pass) is accepted",
+        "C09: P_L outside {2.5 %, 50 %} is outside the guideline's domain: normal / log-normal silently use the 50 % formula, blanket "
+        "raises; the oracle makes no claim there for normal / log-normal (the correspondence still follows the code)",
         "C09: np.searchsorted on the cumulative damages is modelled as 'first index with prefix sum >= 1' (numpy contract for a "
         "non-decreasing array); pandas' groupby sum/cumsum are modelled as plain sums (Kahan compensation changes ulps only): "
         "tables whose prefix sums come closer than 1e-9 to one without being exactly representable ties are compared without the index",
         "C09: P_RAM: strain amplitude and E non-negative (numpy sqrt of a negative product under a non-negative factor is NaN)",
-        "C09: compute_beta is sampled for P_A in [1e-100, 0.5]; below about 1e-118 the root search reports failure (RuntimeError, loud) - not claimed",
+        "C09: compute_beta is sampled for P_A in [1e-100, 0.5] (denser towards 0.5, where the root search of the unrepaired code "
+        "fails for about 1 % of the values in (0.48, 0.5)); the model is the REPAIRED behaviour (the quantile itself)",
+        "C09: of constants.py only the keys C09 reads are tied to the model and the guideline here (E, a_M, b_M, d_1, d_2, "
+        "a/b_PZ/PD_RAM, d_RAJ, a/b_PZ/PD_RAJ): correspondence, Bridge.constants_eq_c09, C09.constants_eq_guideline, oracle and the "
+        "published material-curve literals of the corpus; the rest of the table (k_st, a_RP, f_25..., read by the assessment) is "
+        "Proofs/BridgeConstsAll.lean, to be listed by C10",
         "C09: gamma_L takes beta from the tabulated list (_get_beta, np.isclose matching), not from compute_beta - modelled as coded",
+        "C09: a P_RAJ curve whose endurance value has been lowered (update_P_RAJ_D, done by the P_RAJ damage calculation) is in scope: "
+        "calc_N uses the current value, calc_P_RAJ / fatigue_life_limit the initial one; on (P_RAJ_D, P_RAJ_D_0] resp. "
+        "[N_D, N_D,final) the curve is neither inverse nor strictly decreasing: open finding praj-updated-endurance-band (no small "
+        "safe repair: the updated value is a per-node Series in the assessment, calc_P_RAJ is evaluated on N arrays for plotting)",
         "C09: P_RAJ damage parameter row function (crack opening loop) and DamageCalculatorPRAJ are not modelled here (C10 treats the P_RAJ pipeline by oracle)",
     ]
 
@@ -360,17 +558,22 @@ class C09(Prop):
             for pl in (2.5, 50.0):
                 yield {"kind": "gamma", "which": "normal", "PA": p, "PL": pl, "s": 10.0, "loads": [100.0, -150.0, 120.0]}
                 yield {"kind": "gamma", "which": "lognormal", "PA": p, "PL": pl, "s": 0.01, "loads": [1.0]}
+        # the auditor's mesh (the extreme load is negative and sits on one node only)
+        for indep in (False, True):
+            yield {"kind": "gamma", "which": "normal", "PA": 1e-3, "PL": 50.0, "s": 10.0,
+                   "loads": [100.0, 50.0, -300.0, -20.0, 120.0, 30.0], "mesh": {"ids": [0, 1], "n": 2, "indep": indep, "frame": 0}}
         for pl in (2.5, 50.0, 10.0):
             yield {"kind": "gamma", "which": "blanket", "PA": 1e-5, "PL": pl, "s": 0.0, "loads": [1.0]}
         # P_A log grid
         ngrid = 60 if not big else 600
         for i in range(ngrid + 1):
             yield {"kind": "beta", "PA": 10.0 ** (-9 + i * (9 + math.log10(0.5)) / ngrid)}
-        counts = {"pram_curve": 120, "praj_curve": 80, "pram_row": 150, "life": 400, "beta": 200, "gamma": 250}
+        counts = {"pram_curve": 120, "praj_curve": 80, "pram_row": 150, "life": 400, "life_multi": 150, "beta": 200, "gamma": 250,
+                  "gamma_mesh": 120}
         if big:
             counts = {k: v * 8 for k, v in counts.items()}
         gens = {"pram_curve": gen_pram_curve, "praj_curve": gen_praj_curve, "pram_row": gen_pram_row, "life": gen_life,
-                "beta": gen_beta, "gamma": gen_gamma}
+                "life_multi": gen_life_multi, "beta": gen_beta, "gamma": gen_gamma, "gamma_mesh": gen_gamma_mesh}
         for kind, n in counts.items():
             for _ in range(n):
                 yield gens[kind](rng)
@@ -395,10 +598,23 @@ class C09(Prop):
             c = f"{f2h(case['d1'])} {f2h(case['d2'])} {f2h(case['PZ'])} {f2h(case['PD'])}"
             rows = " ".join(f"{f2h(r[0])} {1 if r[1] else 0} {int(r[2])}" for r in case["rows"])
             return [f"c09.life {c} {rows}"]
+        if k == "life_multi":
+            n = len(case["points"])
+            cs = " ".join(f"{f2h(pt['PZ'])} {f2h(pt['PD'])}" for pt in case["points"])
+            rows = " ".join(f"{f2h(case['points'][j]['P'][h])} {1 if c else 0} {int(r)}"
+                            for h, (c, r) in enumerate(case["pattern"]) for j in range(n))
+            return [f"c09.lifeB {j} {n} {f2h(case['d1'])} {f2h(case['d2'])} {cs} {rows}" for j in range(n)]
         if k == "beta":
             return [f"c09.beta {f2h(case['PA'])}", f"c09.getbeta {f2h(case['PA'])}"]
         if k == "gamma":
             w = case["which"]
+            if case.get("mesh"):
+                m = case["mesh"]
+                head = f"c09.gLnM {f2h(case['PA'])} {f2h(case['PL'])} {f2h(case['s'])}"
+                tail = " ".join(f2h(v) for v in case["loads"])
+                if m["indep"]:
+                    return [f"{head} 1 {j} {m['n']} {tail}" for j in range(m["n"])]
+                return [f"{head} 0 0 {m['n']} {tail}"]
             if w == "normal":
                 return [f"c09.gLn {f2h(case['PA'])} {f2h(case['PL'])} {f2h(case['s'])} " + " ".join(f2h(v) for v in case["loads"])]
             if w == "lognormal":
@@ -419,9 +635,6 @@ class C09(Prop):
                 for key in CONST_KEYS:
                     v = float(col[key])
                     out.append("none" if (v != v or v == INF) else f2h(v))
-                extra = sorted(set(const.all_constants.index) - set(CONST_KEYS))
-                if extra:
-                    out.append("unexpected-keys:" + ",".join(extra))
                 return [" ".join(out)]
             if k == "pram_curve":
                 w = pram_curve(case)
@@ -464,8 +677,17 @@ class C09(Prop):
                         self._count("life_exact_tie_at_one")
                 if r["infinite"]:
                     self._count("life_is_infinite")
-                return [f"{1 if r['early'] else 0} {r['idx']} {f2h(r['x'])} {f2h(r['nseq'])} {f2h(r['ncyc'])} "
-                        f"{1 if r['infinite'] else 0} | " + " ".join(f2h(d) for d in r["D"])]
+                return [life_line(r)]
+            if k == "life_multi":
+                rs = run_life_multi(case)
+                self._count("life_multi_points", len(rs))
+                self._count("life_multi_vector_curve" if case["vector"] else "life_multi_shared_curve")
+                for r in rs:
+                    self._count("life_multi_point_" + ("early" if r["early"] else "inf" if r["nseq"] == INF else
+                                                        "infinite_verdict" if r["infinite"] else "never"))
+                if len({(r["early"], r["infinite"], r["nseq"] == INF) for r in rs}) > 1:
+                    self._count("life_multi_mixed_status")
+                return [life_line(r) for r in rs]
             if k == "beta":
                 ser = pd.Series([1.0])
                 try:
@@ -473,10 +695,54 @@ class C09(Prop):
                     self._count("getbeta_hit")
                 except ValueError:
                     gb = "ValueError"
-                return [f2h(float(pc.compute_beta(case["PA"]))), gb]
+                try:
+                    b = f2h(float(pc.compute_beta(case["PA"])))
+                except RuntimeError as e:
+                    if "Could not compute the value of beta" not in str(e):
+                        raise
+                    self._count("compute_beta_RuntimeError")
+                    b = "RuntimeError"
+                return [b, gb]
             if k == "gamma":
+                if case.get("mesh"):
+                    return self._gamma_mesh_impl(case)[0]
                 return [self._gamma_impl(case)]
         return []
+
+    def _mesh_obj(self, case):
+        m = case["mesh"]
+        n = m["n"]
+        steps = len(case["loads"]) // n
+        mi = pd.MultiIndex.from_product([range(steps), m["ids"]], names=["load_step", "node_id"])
+        ser = pd.Series([float(v) for v in case["loads"]], index=mi, name="load")
+        if m["frame"] == 1:
+            return ser.to_frame("col0")
+        if m["frame"] == 2:
+            return pd.DataFrame({"col0": ser, "col1": np.arange(float(len(ser)))})
+        return ser
+
+    def _gamma_mesh_impl(self, case, count=True):
+        """([per-node or single gamma tokens], scaled object or None)"""
+        m = case["mesh"]
+        obj = self._mesh_obj(case)
+        par = pd.Series({"P_A": case["PA"], "P_L": case["PL"], "s_L": case["s"], "max_load_independently_for_nodes": bool(m["indep"])})
+        nl = m["n"] if m["indep"] else 1
+        try:
+            g = obj.fkm_safety_normal_from_stddev.gamma_L(par.copy())
+            scaled = obj.fkm_safety_normal_from_stddev.scaled_load_sequence(par.copy())
+        except ValueError as e:
+            if "has to be one of" not in str(e):
+                raise
+            if count:
+                self._count("gamma_mesh_ValueError")
+            return ["ValueError"] * nl, None
+        if count:
+            self._count("gamma_mesh_" + ("per_node" if m["indep"] else "global") + f"_frame{m['frame']}")
+        if m["indep"]:
+            if isinstance(g, pd.DataFrame):
+                g = g.iloc[:, 0]
+            return [f2h(float(g.loc[i])) for i in m["ids"]], scaled
+        return [f2h(float(g))], scaled
 
     def _gamma_impl(self, case, count=True):
         ser = pd.Series([float(v) for v in case["loads"]], name="load")
@@ -501,14 +767,25 @@ class C09(Prop):
         if len(model_out) != len(impl_out):
             return f"length {len(model_out)} vs {len(impl_out)}"
         k = case["kind"]
-        exact = k in ("consts", "pram_row") or (k == "life" and case.get("exact"))
+        exact = k in ("consts", "pram_row") or (k in ("life", "life_multi") and case.get("exact"))
         rtol = 0.0 if exact else 1e-11
         for i, (a, b) in enumerate(zip(model_out, impl_out)):
             if a == b:
                 continue
             ta, tb = a.split(), b.split()
+            if k == "consts" and len(ta) == len(tb) == len(CONST_KEYS):
+                # only the keys C09 reads (the whole table is C10's: Proofs/BridgeConstsAll.lean + its correspondence)
+                keep = [j for j, key in enumerate(CONST_KEYS) if key in GUIDELINE["Steel"]]
+                ta, tb = [ta[j] for j in keep], [tb[j] for j in keep]
+                if ta == tb:
+                    continue
             if len(ta) != len(tb):
                 return f"line {i}: model={a[:300]!r} impl={b[:300]!r}"
+            if k == "life_multi":
+                d = self._compare_life(multi_subcase(case, i), ta, tb)
+                if d:
+                    return f"point {i}: {d}: model={a[:300]!r} impl={b[:300]!r}"
+                continue
             if k == "life":
                 d = self._compare_life(case, ta, tb)
                 if d:
@@ -560,6 +837,7 @@ class C09(Prop):
 
     # -------------------------------------------------------------- direct property oracle (real code only)
     def oracle(self, case):
+        _imports()          # registers the pandas accessors (every forked worker needs it before its first case)
         k = case["kind"]
         with warnings.catch_warnings():
             warnings.simplefilter("ignore")
@@ -573,6 +851,10 @@ class C09(Prop):
                 return self._oracle_row(case)
             if k == "life":
                 return self._oracle_life(case)
+            if k == "life_multi":
+                return self._oracle_life_multi(case)
+            if k == "literal":
+                return self._oracle_literal(case)
             if k == "beta":
                 return self._oracle_beta(case)
             if k == "gamma":
@@ -600,6 +882,8 @@ class C09(Prop):
             PD_N, PD_P, PZ = case["PD"], case["PD0"], case["PZ"]
             knee_N, knee_P = 1.0, case["PZ"]
         ND = float(w.fatigue_life_limit)
+        lowered = which == "praj" and 0 < PD_N < PD_P
+        NDf = float(w.fatigue_life_limit_final) if which == "praj" else ND
         # admissibility as the property quantifies it
         if not (0 < PD_P < PZ):
             return None
@@ -620,6 +904,22 @@ class C09(Prop):
                     return (f"{which}: calc_P(calc_N({p!r})) = {back!r}", "curve-inverse")
                 if not n < ND * (1 + 1e-9):
                     return (f"{which}: calc_N({p!r}) = {n!r} not below the life limit {ND!r}", "curve-branch")
+            elif lowered and p < PD_P * (1 - 1e-7):
+                # the band between the lowered and the initial endurance value: finite life (checked above), so the
+                # property demands the inverse here as well
+                self._count("praj_band_P")
+                if not (ND * (1 - 1e-9) < n < NDf * (1 + 1e-9)):
+                    return (f"praj: calc_N({p!r}) = {n!r} outside [N_D, N_D,final) = [{ND!r}, {NDf!r})", "curve-branch")
+                back = calcP(n)
+                if not close(back, p, rtol=RT):
+                    d = (f"praj after update_P_RAJ_D({PD_N!r}) (P_RAJ_D_0 = {PD_P!r}): calc_N({p!r}) = {n!r} is finite but "
+                         f"calc_P_RAJ of it = {back!r}")
+                    # the recorded mechanism and nothing else: calc_N right, calc_P_RAJ answers the initial endurance value
+                    if back == PD_P and close(n, (p / PZ) ** (1 / case["d"]), rtol=1e-11):
+                        if not self.known(K_BAND, d):
+                            return (d, K_BAND)
+                    else:
+                        return (d, "curve-inverse")
             if which == "pram" and ((p > PZ * (1 + 1e-9) and not n < 1e3) or (p < PZ * (1 - 1e-9) and not n > 1e3)):
                 return (f"pram: calc_N({p!r}) = {n!r} on the wrong side of 1e3 (P_Z = {PZ!r})", "curve-branch")
         # strictly decreasing N(P)
@@ -632,6 +932,25 @@ class C09(Prop):
         for n in case["Ns"]:
             nn = INF if n == "inf" else n
             p = calcP(nn)
+            if lowered and nn >= ND * (1 + 1e-9):
+                # finite-life range of the lowered curve: N < N_D,final (calc_N takes these values); at and beyond N_D,final the
+                # endurance value the curve now has
+                if nn <= NDf * (1 - 1e-9):
+                    want = PZ * nn ** case["d"]
+                    self._count("praj_band_N")
+                elif nn >= NDf * (1 + 1e-9):
+                    want = PD_N
+                else:
+                    continue
+                if not close(p, want, rtol=RT):
+                    d = (f"praj after update_P_RAJ_D({PD_N!r}) (P_RAJ_D_0 = {PD_P!r}, N_D = {ND!r}, N_D,final = {NDf!r}): "
+                         f"calc_P_RAJ({nn!r}) = {p!r}, the curve calc_N uses has {want!r}")
+                    if p == PD_P:
+                        if not self.known(K_BAND, d):
+                            return (d, K_BAND)
+                    else:
+                        return (d, "curve-endurance")
+                continue
             if nn >= ND * (1 + 1e-9):
                 if p != PD_P:
                     return (f"{which}: calc_P({nn!r}) = {p!r} beyond the life limit {ND!r}, endurance value {PD_P!r}", "curve-endurance")
@@ -685,7 +1004,62 @@ class C09(Prop):
         return None
 
     def _oracle_life(self, case):
+        res = self._oracle_life_eval(case, run_life(case))
+        if res is None and case.get("expect"):
+            res = self._oracle_life_expect(case)
+        return res
+
+    def _oracle_life_expect(self, case):
+        """A table with published results (guideline worked example): the code AND the oracle's own reference accumulation
+        have to reproduce the published numbers; records which reading of 'number of cycles' the literal supports."""
         r = run_life(case)
+        e = case["expect"]
+        rows = case["rows"]
+        w = pram_curve(case)
+        ds = [(1.0 if c else 0.5) / (1e3 * (P / case["PZ"]) ** (1 / (case["d1"] if P >= case["PZ"] else case["d2"]))) for P, c, _r in rows]
+        D1 = sum(d for d, row in zip(ds, rows) if row[2] == 1)
+        D2 = sum(d for d, row in zip(ds, rows) if row[2] == 2)
+        n1 = sum(1 for row in rows if row[2] == 1)
+        n2 = sum(1 for row in rows if row[2] == 2)
+        x = (1 - D1) / D2
+        ref_seq, ref_cyc, alt_cyc = 1 + x, (1 + x) * n2, n1 + x * n2
+        for name, got in (("lifetime_n_times_load_sequence of the code", r["nseq"]), ("reference accumulation (passes)", ref_seq)):
+            if round(got) != e["nseq_round"]:
+                return (f"{e['source']}: {name} = {got!r}, published {e['nseq_round']}", "literal-guideline-example")
+        for name, got in (("lifetime_n_cycles of the code", r["ncyc"]), ("reference accumulation (cycles = passes x n2)", ref_cyc)):
+            if round(got) != e["ncyc_round"]:
+                return (f"{e['source']}: {name} = {got!r}, published {e['ncyc_round']}", "literal-guideline-example")
+        pmax = max(P for P, _c, run in rows if run == 2)
+        if not close(pmax, e["P_RAM_max"], rtol=1e-2) or not close(float(w.fatigue_strength_limit), e["P_RAM_D"], rtol=1e-2):
+            return (f"{e['source']}: P_RAM_max {pmax!r} / endurance value {float(w.fatigue_strength_limit)!r}, published "
+                    f"{e['P_RAM_max']} / {e['P_RAM_D']}", "literal-guideline-example")
+        self._count("literal_cycles_reading_passes_x_n2_only" if round(alt_cyc) != e["ncyc_round"] else "literal_cycles_reading_undecided")
+        return None
+
+    def _oracle_life_multi(self, case):
+        rs = run_life_multi(case)
+        n = len(rs)
+        for k, r in enumerate(rs):
+            sub = multi_subcase(case, k)
+            res = self._oracle_life_eval(sub, r)
+            if res is not None:
+                return (f"assessment point {k} of {n} in one table: " + res[0], res[1])
+            # the point alone
+            a = run_life(sub)
+            cums, acc = [], 0.0
+            for d in a["D"]:
+                acc += d
+                cums.append(acc)
+            tie = near_tie(cums, bool(case.get("exact")))
+            for name in ("nseq", "ncyc", "infinite") + (() if tie else ("idx",)):
+                u, v = r[name], a[name]
+                same = (u == v) if isinstance(u, (bool, int)) else close(u, v, rtol=1e-12)
+                if not same and not (tie and name != "infinite"):
+                    return (f"assessment point {k} of {n}: {name} = {u!r} in the common table, {v!r} when the point is assessed alone "
+                            f"(P_RAM_Z = {sub['PZ']!r}, P_RAM_D = {sub['PD']!r}, rows {sub['rows']!r})", "multipoint-differs-from-single")
+        return None
+
+    def _oracle_life_eval(self, case, r):
         rows = case["rows"]
         exact = bool(case.get("exact"))
         # infinite life <=> the component curve gives infinite life for every hysteresis of the second pass
@@ -711,14 +1085,35 @@ class C09(Prop):
                 fail_at = i
         if near_tie(cums, exact):
             return None
-        if fail_at is not None:
-            if r["nseq"] != 0 or r["ncyc"] != fail_at:
-                return (f"damage sum reaches one at hysteresis {fail_at} of the recorded table, but lifetime_n_times_load_sequence = "
-                        f"{r['nseq']!r}, lifetime_n_cycles = {r['ncyc']!r}", "lifetime-early")
-            return None
         D1 = sum(d for d, row in zip(ds, rows) if row[2] == 1)
         D2 = sum(d for d, row in zip(ds, rows) if row[2] == 2)
+        n1 = sum(1 for row in rows if row[2] == 1)
         n2 = sum(1 for row in rows if row[2] == 2)
+        if fail_at is not None:
+            # number of cycles: the literal hysteresis count up to the failing hysteresis
+            if r["ncyc"] != fail_at:
+                return (f"damage sum reaches one at hysteresis {fail_at} of the recorded table, but lifetime_n_cycles = {r['ncyc']!r}",
+                        "lifetime-early")
+            if fail_at < n1:
+                # failure within the first pass: the text does not say which fraction of a pass is meant; no complete pass = 0
+                self._count("oracle_early_pass1")
+                if r["nseq"] != 0:
+                    return (f"damage sum reaches one at hysteresis {fail_at} of the first pass, but lifetime_n_times_load_sequence = "
+                            f"{r['nseq']!r}", "lifetime-early")
+                return None
+            # failure within the second recorded pass: first pass once, then the fraction of the second pass that is bearable
+            self._count("oracle_early_pass2")
+            want = 1.0 + (1.0 - D1) / D2
+            if not close(r["nseq"], want, rtol=1e-8 * (1.0 + D1 / max(1 - D1, 1e-300))):
+                d = (f"literal accumulation: first pass D1 = {D1!r}, second pass D2 = {D2!r}: the sum reaches one after "
+                     f"1 + (1 - D1)/D2 = {want!r} passes, lifetime_n_times_load_sequence = {r['nseq']!r}")
+                # the recorded finding and nothing else: exactly 0 passes
+                if r["nseq"] == 0 and D1 < 1.0 <= D1 + D2:
+                    if not self.known(K_EARLY, d):
+                        return (d, K_EARLY)
+                else:
+                    return (d, "lifetime-early")
+            return None
         if D2 == 0:
             if r["nseq"] != INF or r["ncyc"] != INF:
                 return (f"no damage in the second pass but lifetime = {r['nseq']!r} sequences / {r['ncyc']!r} cycles", "lifetime-accumulation")
@@ -733,13 +1128,16 @@ class C09(Prop):
                 reps += 1
             x_lit = reps + (1.0 - acc) / D2
             tol = 1e-8 * cond + reps * 1e-15
-        else:               # too many repetitions to add one by one: block-wise
-            reps = math.floor(guess) - 1
-            acc = D1 + reps * D2
-            while acc + D2 < 1.0:
-                acc += D2
-                reps += 1
-            x_lit = reps + (1.0 - acc) / D2
+        else:
+            # too many repetitions to add one by one (and for tiny D2 a float sum would not move at all): all whole
+            # repetitions that stay below one in one block, in exact rational arithmetic on the float damages
+            from fractions import Fraction
+            F1, F2 = Fraction(D1), Fraction(D2)
+            reps = (1 - F1) // F2
+            if F1 + reps * F2 >= 1:
+                reps -= 1
+            accF = F1 + reps * F2
+            x_lit = float(reps + (1 - accF) / F2)
             tol = 1e-7 * cond
         if not close(r["nseq"], 1.0 + x_lit, rtol=tol):
             return (f"literal accumulation: failure after 1 + {x_lit!r} passes, lifetime_n_times_load_sequence = {r['nseq']!r}", "lifetime-accumulation")
@@ -750,7 +1148,13 @@ class C09(Prop):
     def _oracle_beta(self, case):
         _dp, _dc, pc, _const = _imports()
         PA = case["PA"]
-        b = float(pc.compute_beta(PA))
+        try:
+            b = float(pc.compute_beta(PA))
+        except RuntimeError as e:
+            if "Could not compute the value of beta" not in str(e):
+                raise
+            return (f"compute_beta({PA!r}) raises RuntimeError ('the optimizer did not find a solution') for a failure probability "
+                    f"in (0, 0.5]", "beta-root-search-fails")
         # Phi(-beta) = P_A with Phi(x) = erfc(-x / sqrt 2) / 2
         got = 0.5 * math.erfc(b / math.sqrt(2.0))
         if not close(got, PA, rtol=1e-8):
@@ -760,8 +1164,12 @@ class C09(Prop):
         return None
 
     def _oracle_gamma(self, case):
+        if case.get("mesh"):
+            return self._oracle_gamma_mesh(case)
         got = self._gamma_impl(case, count=False)
         PA, PL, s = case["PA"], case["PL"], case["s"]
+        if case["which"] != "blanket" and not (abs(PL - 2.5) <= 1e-8 + 2.5e-5 or abs(PL - 50) <= 1e-8 + 50e-5):
+            return None         # P_L outside the guideline's {2.5 %, 50 %}: no claim (ASSUMPTIONS)
 
         def isclose(a, b):
             return abs(a - b) <= 1e-8 + 1e-5 * abs(b)
@@ -787,11 +1195,87 @@ class C09(Prop):
                     f"(P_A={PA!r}, P_L={PL!r}, s={s!r})", "gamma-L")
         return None
 
+    def _oracle_gamma_mesh(self, case):
+        m = case["mesh"]
+        n, ids = m["n"], m["ids"]
+        PA, PL, s = case["PA"], case["PL"], case["s"]
+        toks, scaled = self._gamma_mesh_impl(case, count=False)
+
+        def isclose(a, b):
+            return abs(a - b) <= 1e-8 + 1e-5 * abs(b)
+        beta = next((b for p, b in BETA_TABLE if isclose(PA, p)), None)
+        if beta is None:
+            if any(t != "ValueError" for t in toks):
+                return (f"gamma_L (normal, mesh) for P_A={PA!r} outside the guideline's values did not raise", "gamma-L")
+            return None
+        alpha = (0.7 * beta - 2) * s if isclose(PL, 2.5) else 0.7 * beta * s
+        cols = [[case["loads"][t * n + k] for t in range(len(case["loads"]) // n)] for k in range(n)]
+        node_max = [max(abs(v) for v in col) for col in cols]
+        lmaxs = node_max if m["indep"] else [max(node_max)] * n
+        wants = [(L + alpha) / L for L in lmaxs]
+        gots = toks if m["indep"] else toks * n
+        for k in range(n):
+            if gots[k] == "ValueError" or not close(h2f(gots[k]), wants[k], rtol=1e-12):
+                return (f"gamma_L (normal, mesh, node_id {ids[k]}, max_load_independently_for_nodes={m['indep']}) = "
+                        f"{gots[k] if gots[k] == 'ValueError' else h2f(gots[k])!r}, guideline formula with L_max = {lmaxs[k]!r} "
+                        f"(greatest absolute load) gives {wants[k]!r} (P_A={PA!r}, P_L={PL!r}, s_L={s!r}, node loads {cols[k]!r})", "gamma-L")
+        # the scaled load sequence: every load of a node times that node's gamma_L, further columns untouched
+        first = scaled.iloc[:, 0] if isinstance(scaled, pd.DataFrame) else scaled
+        for t in range(len(case["loads"]) // n):
+            for k in range(n):
+                v = float(first.loc[(t, ids[k])])
+                if not close(v, cols[k][t] * wants[k], rtol=1e-12, atol=1e-300):
+                    return (f"scaled_load_sequence at load_step {t}, node_id {ids[k]} = {v!r}, load {cols[k][t]!r} times gamma_L "
+                            f"{wants[k]!r} = {cols[k][t] * wants[k]!r}", "gamma-L-scaling")
+        if isinstance(scaled, pd.DataFrame) and scaled.shape[1] > 1:
+            if list(scaled.iloc[:, 1].values) != list(np.arange(float(len(scaled)))):
+                return ("scaled_load_sequence changed a column that is not the load", "gamma-L-scaling")
+        return None
+
+    def _oracle_literal(self, case):
+        """Numbers published in the repo's own tests / docs (taken from the guideline's worked examples and tables): the
+        oracle's reference formulas (GUIDELINE, BETA_TABLE, erfc, the gamma_L formulas) AND the code have to reproduce them."""
+        dp, dc, pc, const = _imports()
+        what, src = case["what"], case["source"]
+        if what == "gamma":
+            sub = {"kind": "gamma", "which": case["which"], "PA": case["PA"], "PL": case["PL"], "s": case["s"], "loads": case["loads"]}
+            r = self._oracle_gamma(sub)                     # code = reference formula
+            if r is not None:
+                return r
+            got = h2f(self._gamma_impl(sub, count=False))
+            if not close(got, case["expect"], rtol=case["rtol"]):
+                return (f"{src}: gamma_L = {got!r}, published {case['expect']!r}", "literal-gamma")
+            return None
+        if what == "beta":
+            b = float(pc.compute_beta(case["PA"]))
+            ref = 0.5 * math.erfc(case["expect"] / math.sqrt(2.0))      # the oracle's Phi(-beta) at the published beta
+            if not close(b, case["expect"], rtol=case["rtol"], atol=1e-8) or not close(ref, case["PA"], rtol=2e-5):
+                return (f"{src}: compute_beta({case['PA']!r}) = {b!r}, published {case['expect']!r} (Phi(-published) = {ref!r})", "literal-beta")
+            return None
+        if what == "material_curve":
+            g = GUIDELINE[case["group"]]
+            col = const.all_constants[case["group"]]
+            fam = case["family"]
+            f25 = F25[case["group"]][fam]
+            for tab, name in ((g, "the oracle's guideline table"), ({k: float(col[k]) for k in g}, "constants.py")):
+                pz = f25 * tab[f"a_PZ_{fam}"] * case["Rm"] ** tab[f"b_PZ_{fam}"]
+                pd_ = f25 * tab[f"a_PD_{fam}"] * case["Rm"] ** tab[f"b_PD_{fam}"]
+                if not close(pz, case["PZ_WS"], rtol=1e-3) or not close(pd_, case["PD_WS"], rtol=1e-3):
+                    return (f"{src}: {name} gives P_{fam}_Z_WS = {pz!r}, P_{fam}_D_WS = {pd_!r} for {case['group']}, R_m = {case['Rm']!r}; "
+                            f"published {case['PZ_WS']!r}, {case['PD_WS']!r}", "literal-constants")
+                slopes = (tab["d_1"], tab["d_2"]) if fam == "RAM" else (tab["d_RAJ"],)
+                if list(slopes) != list(case["slopes"]):
+                    return (f"{src}: {name} has slopes {slopes!r}, published {case['slopes']!r}", "literal-constants")
+            return None
+        return (f"unknown literal {what!r}", "harness")
+
     # -------------------------------------------------------------- shrinking
     def shrink(self, case, still_fails):
         cur = dict(case)
+        if cur.get("kind") == "life_multi":
+            return self._shrink_multi(cur, still_fails)
         for key in ("rows", "Ps", "Ns", "loads"):
-            if key not in cur:
+            if key not in cur or (key == "loads" and cur.get("mesh")):
                 continue
             changed = True
             while changed and len(cur[key]) > 1:
@@ -806,4 +1290,32 @@ class C09(Prop):
                             break
                     except Exception:
                         continue
+        return cur
+
+    def _shrink_multi(self, cur, still_fails):
+        def ok(c):
+            try:
+                return still_fails(c)
+            except Exception:
+                return False
+        changed = True
+        while changed:
+            changed = False
+            for k in range(len(cur["points"])):             # drop an assessment point
+                if len(cur["points"]) <= 1:
+                    break
+                cand = dict(cur, points=cur["points"][:k] + cur["points"][k + 1:])
+                if ok(cand):
+                    cur, changed = cand, True
+                    break
+            if changed:
+                continue
+            for h in range(len(cur["pattern"])):            # drop a hysteresis (in every point)
+                pat = cur["pattern"][:h] + cur["pattern"][h + 1:]
+                if not any(r == 2 for _c, r in pat):
+                    continue
+                cand = dict(cur, pattern=pat, points=[dict(pt, P=pt["P"][:h] + pt["P"][h + 1:]) for pt in cur["points"]])
+                if ok(cand):
+                    cur, changed = cand, True
+                    break
         return cur
